@@ -262,6 +262,23 @@ func runC08(c *runCfg) error {
 			}
 		}
 	}
+	// value lengths: around typical internal buffer sizes (a value is never cut, padded or shared)
+	for _, n := range []int{255, 256, 1023, 1024, 1025, 2048, 3000, 4095, 4096, 4097, 8193, 65535, 65536, 70001} {
+		for _, f := range []int{0, 1} {
+			big := make([]byte, n)
+			for i := range big {
+				big[i] = byte('a' + (i*7+n)%26)
+			}
+			other := make([]byte, n/2+1)
+			for i := range other {
+				other[i] = byte(i * 13)
+			}
+			ps := []bindP{{v: []byte("head")}, {v: big}, {null: true}, {v: other}, {v: big[:n-1]}}
+			poids := []int{25, 25, 0, 17, 25}
+			run("longvalue", mkCfg(1, poids), []int{f}, ps, nil)
+			run("longvalue", mkCfg(1, poids), []int{0, f, 1, 1, f}, ps, []int{1})
+		}
+	}
 	// re-binding a portal with other result formats; two live portals with different formats
 	{
 		intCfg := cfgT{limit: 1 << 20, auth: "none", term: "none", parse: []parseEntry{{query: []byte("q"), stmts: []stmtT{{id: 9,
